@@ -8,14 +8,15 @@ from . import c01, c04
 
 ID = "C05"
 BUDGET = {"quick": 1600, "thorough": 200000}
-RULE = ("scenario = scheduler with max_exec in {1,2,3,5} (and 0), 2-9 cyclic/one-shot jobs on a 2^-6 s grid (so that the float "
+RULE = ("scenario = scheduler with max_exec in {1,2,3,5} (and 0), n_threads in {1 (60%), 0, 2, 3}, 2-9 cyclic/one-shot jobs on a 2^-6 s grid (so that the float "
         "priorities are exact), weights incl. 0, fractional and equal ones, latenesses incl. ties; built-in linear / constant "
         "functions (batch must equal the Lean model's, including order) and table-driven user functions returning negative, "
         "zero, equal values (Spec oracle on the values actually returned); polls repeated at one instant until the backlog "
         "is drained; non-trivial = a poll where the limit actually cuts (more positive-priority jobs than max_exec); "
         "distinct by scenario hash")
 ASSUMPTIONS = c01.ASSUMPTIONS + ["priority functions are deterministic and return comparable non-NaN numbers",
-                                 "single worker (n_threads=1): invocation order = queue order"]
+                                 "single worker (n_threads=1): invocation order = queue order; with n_threads in {0, 2, 3} (40% of the "
+                                 "scenarios) the batch is compared as a set and the order clause is not evaluated"]
 GRID = 15_625  # 2^-6 s in us
 
 
@@ -24,7 +25,8 @@ def scenarios(rng, n, tier):
         tz = None if rng.random() < 0.4 else gen.rand_off(rng, "hour")[0]
         clock = gen.rand_instant(rng)[0] // GRID * GRID
         kind = rng.choice([0, 0, 1, 2, 2])
-        scn = {"tz": tz, "max_exec": rng.choice([0, 1, 1, 2, 2, 3, 5]), "prio": kind, "clock0": clock, "ops": []}
+        scn = {"tz": tz, "max_exec": rng.choice([0, 1, 1, 2, 2, 3, 5]), "prio": kind, "clock0": clock, "ops": [],
+               "n_threads": rng.choice([1, 1, 1, 0, 0, 2, 3])}
         nj = rng.randint(2, 9)
         ptable = {}
         for i in range(nj):
@@ -70,13 +72,15 @@ def runner(scn):
         if "truncated" in ob:
             break
         if o["op"] == "exec" and not o.get("force") and ob["res"][0] == "c":
+            par = scn.get("n_threads", 1) != 1   # several workers: the batch is compared as a set
             if scn.get("prio", 0) == 2:
                 tab = ptable_of(ob)
-                lines.append(f"selectp {scn.get('max_exec', 0)} {len(tab)} " + " ".join(f"{k} {p.numerator} {p.denominator}" for k, p in tab))
+                lines.append(f"selectp{'s' if par else ''} {scn.get('max_exec', 0)} {len(tab)} " + " ".join(f"{k} {p.numerator} {p.denominator}" for k, p in tab))
             else:
                 tab = c04.table_of(ob, o["clock"])
-                lines.append(f"select {scn.get('max_exec', 0)} {scn.get('prio', 0)} {o['clock']} {len(tab)} " + " ".join(f"{k} {d} {c04.w_tokens(w)}" for k, d, w in tab))
-            impl.append(("B " + " ".join(str(i[0]) for i in ob["invoked"])).strip())
+                lines.append(f"select{'s' if par else ''} {scn.get('max_exec', 0)} {scn.get('prio', 0)} {o['clock']} {len(tab)} " + " ".join(f"{k} {d} {c04.w_tokens(w)}" for k, d, w in tab))
+            keys = [i[0] for i in ob["invoked"]]
+            impl.append(("B " + " ".join(str(k) for k in (sorted(keys) if par else keys))).strip())
     return lines, impl, obs
 
 
@@ -93,6 +97,12 @@ def specs(r):
             continue
         tab = ptable_of(ob)
         inv = [x[0] for x in ob["invoked"]]
+        if scn.get("n_threads", 1) != 1:
+            # several workers start the batch in queue order but the callbacks are entered in any order:
+            # the order clause is decided on single-worker runs, everything else on the batch as a set
+            pr = dict(tab)
+            pos = {k: n for n, (k, _p) in enumerate(tab)}
+            inv = sorted(inv, key=lambda k: (-pr.get(k, 0), pos.get(k, 0)))
         qs.append((f"spec c05 {scn.get('max_exec', 0)} {len(tab)} " + " ".join(f"{k} {p.numerator} {p.denominator}" for k, p in tab)
                    + f" {core.s_list(inv)}", {"what": "selection", "op": i}))
         qs.append((f"spec eq {ob['res'][1]} {len(inv)}", {"what": "return value", "op": i}))
@@ -125,7 +135,7 @@ def direct_specs(r):
 
 
 def classes(r):
-    cl = [f"prio:{r['scn'].get('prio', 0)}", f"max_exec:{r['scn'].get('max_exec', 0)}"]
+    cl = [f"prio:{r['scn'].get('prio', 0)}", f"max_exec:{r['scn'].get('max_exec', 0)}", f"n_threads:{r['scn'].get('n_threads', 1)}"]
     for o, ob in zip(r["scn"]["ops"], r["obs"]):
         if "truncated" in ob:
             break
